@@ -443,7 +443,7 @@ func runWorker(chk *Check, tier string, sh, nsh int, base string, deadline time.
 		}
 	}
 	if err != nil || rerr != nil {
-		tail := tailOf(logPath, 3000)
+		tail := headOf(logPath, 3000) + "\n[...]\n" + tailOf(logPath, 3000)
 		// keep the log for diagnosis
 		keep := filepath.Join(VerifRoot, ".work", fmt.Sprintf("lastfail-%s-w%d.log", chk.ID, sh))
 		os.WriteFile(keep, []byte(tail), 0o644)
@@ -454,6 +454,13 @@ func runWorker(chk *Check, tier string, sh, nsh int, base string, deadline time.
 	return res
 }
 
+func headOf(path string, n int) string {
+	data, _ := os.ReadFile(path)
+	if len(data) > n {
+		data = data[:n]
+	}
+	return string(data)
+}
 func tailOf(path string, n int) string {
 	data, _ := os.ReadFile(path)
 	if len(data) > n {
